@@ -40,6 +40,8 @@ type c13FreeCase struct {
 	SecretTwice                                     bool     `json:"secret_twice"`
 	// OCRA
 	O c06Case `json:"o"`
+	// ParseOTPAuthURL: where the secret sits in the query (0 = secret=<text>; see checkC13Free)
+	SecretPlace int `json:"secret_place,omitempty"`
 }
 
 func checkC13Free(c c13FreeCase) verdict {
@@ -87,6 +89,18 @@ func checkC13Free(c c13FreeCase) verdict {
 			label = url.PathEscape(c.LabelIssuer) + ":%20" + url.PathEscape(c.Account)
 		}
 		q := "secret=" + url.QueryEscape(sub)
+		switch c.SecretPlace {
+		case 1: // the '=' escaped one layer too often: the secret ends up inside a query KEY
+			q = "secret%3D" + url.QueryEscape(sub)
+		case 2: // the secret without its name
+			q = url.QueryEscape(sub)
+		case 3: // as a key with an empty value
+			q = url.QueryEscape(sub) + "="
+		case 4: // the pair escaped as a whole, under another name
+			q = "data=" + url.QueryEscape("secret="+sub)
+		case 5: // misspelt name
+			q = "Secret=" + url.QueryEscape(sub) + "&secret_key=" + url.QueryEscape(sub)
+		}
 		if c.IssuerParam != "\x00" { // "\x00" = no issuer parameter
 			q = "issuer=" + url.QueryEscape(c.IssuerParam) + "&" + q
 		}
@@ -203,6 +217,9 @@ func TestC13_FreeCalls(t *testing.T) {
 			c.Params = append(c.Params, rapid.SampledFrom([]string{"image=https%3A%2F%2Fx%2Fy.png", "x", "=", "digits=6&digits=8", "issuer=Other", "%zz=1", "a;b=c"}).Draw(t, "extra"))
 		}
 		c.SecretTwice = rapid.IntRange(0, 9).Draw(t, "twice") == 0
+		if rapid.IntRange(0, 3).Draw(t, "secretPlaceQ") == 0 {
+			c.SecretPlace = rapid.IntRange(1, 5).Draw(t, "secretPlace")
+		}
 		return c
 	})
 	if c13Free.rec().LabelCount("failed") == 0 {
